@@ -48,13 +48,13 @@ func has[K comparable, V any](m map[K]V, k K) bool { _, ok := m[k]; return ok }
 
 // ghost trace of the calling goroutine (spec builtins; the executable stubs only
 // make the file compile - clauses that use them are not replayable):
-//   nsent()/nrecv(): number of channel sends / receives performed so far
+//   nsent[T]()/nrecv[T](): number of sends / receives on channels with element type T (one log per element type)
 //   senton(i, ch)/recvon(i, ch): the i-th send / receive was on channel ch
 //   sentval[T](i)/recvval[T](i): the pointer value sent / received by it
 //   nsenton(ch)/nrecvon(ch): number of sends / receives on ch
 //   wirelen()/wirebyte(i): bytes handed to a function field declared `sink`
-func nsent() int                    { return 0 }
-func nrecv() int                    { return 0 }
+func nsent[T any]() int             { return 0 }
+func nrecv[T any]() int             { return 0 }
 func senton(i int, ch any) bool     { return false }
 func recvon(i int, ch any) bool     { return false }
 func sentval[T any](i int) (t T)    { return }
@@ -80,7 +80,22 @@ func offsetin(sub, whole []byte) int { return 0 }
 // elems / entries: frame designators for modifies clauses
 func elems[T any](s []T) int               { return len(s) }
 func chanstate(ch any) int                 { return 0 }
+
+// ghost-log designators for modifies clauses: a function that appends to a ghost
+// log must say so (callers assume undeclared logs unchanged)
+func wire() int              { return 0 }
+func chanlog[T any]() int    { return 0 }
+func cryptolog() int         { return 0 }
+func events(kind string) int { return 0 }
 func entries[K comparable, V any](m map[K]V) int { return len(m) }
+func exists(lo, hi int, p func(i int) bool) bool {
+	for i := lo; i < hi; i++ {
+		if p(i) {
+			return true
+		}
+	}
+	return false
+}
 func forall(lo, hi int, p func(i int) bool) bool {
 	for i := lo; i < hi; i++ {
 		if !p(i) {
@@ -202,6 +217,7 @@ func syinv(c *syncer) bool {
 
 //@ func (q *queue) processNACK(seq uint8) (resend bool, bumped bool)
 //@   props C01 C07 C09 C18
+//@   modifies chanlog[struct{}]()
 //@   acquires queue.baseMtx, queue.topMtx, syncer.mu
 //@   requires qinv(q)
 //@   modifies q.sequenceBase, q.syncer.state
@@ -220,18 +236,21 @@ func syinv(c *syncer) bool {
 
 //@ func (c *syncer) processNACK(seq uint8)
 //@   props C01 C07 C18
+//@   modifies chanlog[struct{}]()
 //@   acquires syncer.mu
 //@   requires syinv(c)
 //@   modifies c.state
 
 //@ func (c *syncer) resetUnsafe()
 //@   props C07 C18
+//@   modifies chanlog[struct{}]()
 //@   requires syinv(c) && held(&c.mu)
 //@   modifies c.state
 //@   ensures c.state == syncStateIdle
 
 //@ func (c *syncer) initResendUpTo(top uint8)
 //@   props C01 C07 C18
+//@   modifies chanlog[struct{}]()
 //@   acquires syncer.mu
 //@   requires syinv(c)
 //@   modifies c.state, c.expectedACK, c.expectedNACK
@@ -519,6 +538,7 @@ func wireGrew2(oldLen int, b0, b1 uint8) bool {
 
 //@ func newQueue(cfg *queueCfg, timeoutManager *TimeoutManager) (q *queue)
 //@   props C07 C09
+//@   modifies events("*")
 //@   requires cfg != nil && cfg.s >= 2 && !isnil(cfg.sendPkt) && tminv(timeoutManager)
 //@   modifies cfg.log
 //@   ensures fresh(q) && qinv(q) && q.cfg == cfg && q.sequenceBase == 0 && q.sequenceTop == 0 && q.timeoutManager == timeoutManager
@@ -526,6 +546,7 @@ func wireGrew2(oldLen int, b0, b1 uint8) bool {
 
 //@ func (g *GoBackNConn) setN(n uint8)
 //@   props C07 C09 C10
+//@   modifies events("*")
 //@   requires gcfg(g) && 1 <= n && n <= 254
 //@   modifies g.cfg.n, g.cfg.s, g.recvDataChan, g.sendQueue
 //@   ensures gcfg(g) && g.cfg.n == n && g.cfg.s == n+1 && qinv(g.sendQueue) && g.sendQueue.cfg.s == n+1
@@ -536,11 +557,18 @@ func wireGrew2(oldLen int, b0, b1 uint8) bool {
 //@ func (g *GoBackNConn) sendPacket(ctx context.Context, msg Message, isResend bool) (err error)
 //@   props C01 C07 C18
 //@   acquires TimeoutManager.latestSentSYNTimeMu, TimeoutManager.sentTimesMu, TimeoutBooster.mu
-//@   inline
 //@   requires gcfg(g) && isPacket(msg)
-//@   modifies g.timeoutManager.latestSentSYNTime, entries(g.timeoutManager.sentTimes), g.timeoutManager.handshakeBooster.boostCount,
+//@   modifies wire(), g.timeoutManager.latestSentSYNTime, entries(g.timeoutManager.sentTimes), g.timeoutManager.handshakeBooster.boostCount,
 //@            g.timeoutManager.handshakeBooster.lastBoost, g.timeoutManager.resendBooster.boostCount, g.timeoutManager.resendBooster.lastBoost
 //@   ensures tminv(g.timeoutManager)
+//@   ensures @C01 implies(is[*PacketACK](msg), wireGrew2(old(wirelen()), ACK, as[*PacketACK](msg).Seq))
+//@   ensures @C01 implies(is[*PacketNACK](msg), wireGrew2(old(wirelen()), NACK, as[*PacketNACK](msg).Seq))
+//@   ensures @C01 implies(is[*PacketFIN](msg), wirelen() == old(wirelen())+1 && wirebyte(old(wirelen())) == FIN)
+//@   ensures @C01 implies(is[*PacketData](msg), wirelen() == old(wirelen())+4+len(as[*PacketData](msg).Payload) &&
+//@           wirebyte(old(wirelen())) == DATA && wirebyte(old(wirelen())+1) == as[*PacketData](msg).Seq &&
+//@           wirebyte(old(wirelen())+2) == b2u(as[*PacketData](msg).FinalChunk) && wirebyte(old(wirelen())+3) == b2u(as[*PacketData](msg).IsPing))
+//@   ensures @C01 implies(is[*PacketData](msg), forall(0, len(as[*PacketData](msg).Payload), func(k int) bool {
+//@           return wirebyte(old(wirelen())+4+k) == as[*PacketData](msg).Payload[k] }))
 
 //@ extern btclog.Logger.WithPrefix nonnil
 
@@ -551,6 +579,7 @@ func wireGrew2(oldLen int, b0, b1 uint8) bool {
 
 //@ func newGoBackNConn(ctx context.Context, cfg *config, loggerPrefix string) (g *GoBackNConn)
 //@   props C07 C09
+//@   modifies events("*")
 //@   requires !isnil(ctx) && cfg != nil && cfg.n >= 1 && cfg.n <= 254 && cfg.s == cfg.n+1
 //@   requires !isnil(cfg.sendToStream) && !isnil(cfg.recvFromStream)
 //@   ensures fresh(g) && ginv(g) && g.cfg == cfg && g.recvSeq == 0 && cap(g.recvDataChan) == int(cfg.n)
@@ -584,6 +613,7 @@ func wireGrew2(oldLen int, b0, b1 uint8) bool {
 
 //@ func (t *IntervalAwareForceTicker) Reset()
 //@   props C07 C18
+//@   modifies events("stop.ticker"), events("close"), events("wg.wait"), events("new.ticker"), events("wg.add")
 //@   acquires IntervalAwareForceTicker.resetMtx, IntervalAwareForceTicker.lastTimedTickMtx
 //@   requires tkinv(t)
 //@   modifies t.interval, t.ticker, t.quit, t.lastTimedTick, chanstate(t.quit)
@@ -591,6 +621,7 @@ func wireGrew2(oldLen int, b0, b1 uint8) bool {
 
 //@ func (t *IntervalAwareForceTicker) ResetWithInterval(newInterval time.Duration)
 //@   props C07 C18
+//@   modifies events("stop.ticker"), events("close"), events("wg.wait"), events("new.ticker"), events("wg.add")
 //@   acquires IntervalAwareForceTicker.resetMtx, IntervalAwareForceTicker.lastTimedTickMtx
 //@   requires tkinv(t)
 //@   modifies t.interval, t.ticker, t.quit, t.lastTimedTick, chanstate(t.quit)
@@ -598,6 +629,7 @@ func wireGrew2(oldLen int, b0, b1 uint8) bool {
 
 //@ func (t *IntervalAwareForceTicker) Pause()
 //@   props C07 C18
+//@   modifies chanlog[struct{}]()
 //@   requires t != nil
 //@   modifies t.isActive
 //@   ensures t.isActive == 0
@@ -615,6 +647,8 @@ func wireGrew2(oldLen int, b0, b1 uint8) bool {
 
 //@ func (t *IntervalAwareForceTicker) Stop()
 //@   props C07 C12 C18
+//@   modifies chanlog[struct{}]()
+//@   modifies events("stop.ticker"), events("close"), events("wg.wait")
 //@   acquires IntervalAwareForceTicker.resetMtx
 //@   requires tkinv(t)
 //@   modifies t.isActive, chanstate(t.quit)
@@ -629,12 +663,12 @@ func wireGrew2(oldLen int, b0, b1 uint8) bool {
 //@   loop 0 invariant ginv(g)
 //@   loop 0 invariant gstarted(g)
 //@   loop 0 invariant !closed(g.remoteClosed)
-//@   loop 0 invariant nsent() >= old(nsent()) && wirelen() >= old(wirelen())
+//@   loop 0 invariant nsent[*PacketData]() >= old(nsent[*PacketData]()) && wirelen() >= old(wirelen())
 //@   loop 0 step @C01 g.recvSeq == old(g.recvSeq) || int(g.recvSeq) == (int(old(g.recvSeq))+1) % int(g.cfg.s)
 //@   loop 0 step @C01 g.cfg.s == old(g.cfg.s) && g.cfg.n == old(g.cfg.n) && g.sendQueue == old(g.sendQueue)
 //@   loop 0 step @C01 nsenton(g.recvDataChan) == old(nsenton(g.recvDataChan)) ||
 //@          (nsenton(g.recvDataChan) == old(nsenton(g.recvDataChan))+1 && g.recvSeq != old(g.recvSeq))
-//@   loop 0 step @C01 forall(old(nsent()), nsent(), func(i int) bool {
+//@   loop 0 step @C01 forall(old(nsent[*PacketData]()), nsent[*PacketData](), func(i int) bool {
 //@          return implies(senton(i, g.recvDataChan),
 //@              sentval[*PacketData](i) != nil && sentval[*PacketData](i).Seq == old(g.recvSeq) && !sentval[*PacketData](i).IsPing) })
 //@   loop 0 step @C01 implies(g.recvSeq != old(g.recvSeq), wireGrew2(old(wirelen()), ACK, old(g.recvSeq)))
@@ -657,6 +691,8 @@ func wireGrew2(oldLen int, b0, b1 uint8) bool {
 
 //@ func (q *queue) resend() (err error)
 //@   props C01 C07 C09 C18
+//@   modifies chanlog[struct{}](), chanlog[time.Time]()
+//@   modifies wire(), events("call"), events("call.queueCfg.sendPkt")
 //@   role send
 //@   acquires TimeoutManager.mu, TimeoutBooster.mu, queue.baseMtx, queue.topMtx, syncer.mu
 //@   requires qinv(q) && qcontent(q)
@@ -694,9 +730,9 @@ func wireGrew2(oldLen int, b0, b1 uint8) bool {
 //@   loop 0 step @C01,C09 g.sendQueue == old(g.sendQueue) && g.cfg.s == old(g.cfg.s) && g.sendQueue.sequenceBase == old(g.sendQueue.sequenceBase)
 //@   loop 0 step @C01,C09 g.sendQueue.sequenceTop == old(g.sendQueue.sequenceTop) ||
 //@          (int(g.sendQueue.sequenceTop) == (int(old(g.sendQueue.sequenceTop))+1) % int(g.cfg.s) &&
-//@           qsize(g.sendQueue) == old(qsize(g.sendQueue))+1 &&
-//@           wirelen() >= old(wirelen())+4 && wirebyte(old(wirelen())) == DATA && wirebyte(old(wirelen())+1) == old(g.sendQueue.sequenceTop))
-//@   loop 0 step @C01 implies(g.sendQueue.sequenceTop == old(g.sendQueue.sequenceTop), wirelen() == old(wirelen()))
+//@           qsize(g.sendQueue) == old(qsize(g.sendQueue))+1)
+//@   at "if err := g.sendPacket(g.ctx, packet, false)" assert @C01 packet != nil && g.sendQueue.content[packet.Seq] == packet &&
+//@          int(g.sendQueue.sequenceTop) == (int(packet.Seq)+1) % int(g.cfg.s) && inwin(g.sendQueue.sequenceBase, g.sendQueue.sequenceTop, packet.Seq)
 
 // ---- shutdown (C12) ------------------------------------------------------------
 
@@ -708,12 +744,14 @@ func gopen(g *GoBackNConn) bool {
 
 //@ func (q *queue) stop()
 //@   props C12
+//@   modifies events("close")
 //@   requires q != nil && !isnil(q.quit) && !closed(q.quit)
 //@   modifies chanstate(q.quit)
 //@   ensures closed(q.quit)
 
 //@ func NewIntervalAwareForceTicker(interval time.Duration) (t *IntervalAwareForceTicker)
 //@   props C12 C18
+//@   modifies events("new.ticker"), events("wg.add")
 //@   ensures fresh(t) && tkinv(t) && fresh(t.quit) && t.isActive == 0
 
 //@ func (g *GoBackNConn) start()
@@ -727,7 +765,9 @@ func gopen(g *GoBackNConn) bool {
 //@   ensures g.pingTicker.quit != g.pongTicker.quit && g.resendTicker != nil
 //@   ensures g.pingTicker.quit != g.quit && g.pingTicker.quit != g.remoteClosed && g.pingTicker.quit != g.sendQueue.quit
 //@   ensures g.pongTicker.quit != g.quit && g.pongTicker.quit != g.remoteClosed && g.pongTicker.quit != g.sendQueue.quit
-//@   ensures @C12 nevents("wg.add") == old(nevents("wg.add"))+2
+//@   ensures @C12 exists(old(nevents("wg.add")), nevents("wg.add"), func(i int) bool {
+//@           return eventref[*GoBackNConn]("wg.add", i) == g && exists(i+1, nevents("wg.add"), func(j int) bool {
+//@               return eventref[*GoBackNConn]("wg.add", j) == g }) })
 
 //@ func (g *GoBackNConn) Close() (err error)
 //@   props C12 C18
@@ -741,12 +781,13 @@ func gopen(g *GoBackNConn) bool {
 //@   ensures @C12 implies(old(oncedone(&g.closeOnce)), wirelen() == old(wirelen()) && nevents("call.GoBackNConn.cancel") == old(nevents("call.GoBackNConn.cancel")))
 //@   ensures @C12 implies(!old(oncedone(&g.closeOnce)) && !old(closed(g.remoteClosed)), wirelen() == old(wirelen())+1 && wirebyte(old(wirelen())) == FIN)
 //@   ensures @C12 implies(!old(oncedone(&g.closeOnce)) && old(closed(g.remoteClosed)), wirelen() == old(wirelen()))
-//@   ensures @C12 implies(!old(oncedone(&g.closeOnce)), nevents("call.GoBackNConn.cancel") == old(nevents("call.GoBackNConn.cancel"))+1 &&
-//@           nevents("wg.wait") == old(nevents("wg.wait"))+1)
+//@   ensures @C12 implies(!old(oncedone(&g.closeOnce)), nevents("call.GoBackNConn.cancel") == old(nevents("call.GoBackNConn.cancel"))+1)
+//@   ensures @C12 implies(!old(oncedone(&g.closeOnce)), exists(old(nevents("wg.wait")), nevents("wg.wait"), func(i int) bool {
+//@           return eventref[*GoBackNConn]("wg.wait", i) == g }))
 //@   ensures @C12 implies(!old(oncedone(&g.closeOnce)) && g.pingTicker != nil, closed(g.pingTicker.quit))
 //@   ensures @C12 implies(!old(oncedone(&g.closeOnce)) && g.pongTicker != nil, closed(g.pongTicker.quit))
 //@   ensures @C12 implies(!old(oncedone(&g.closeOnce)) && g.resendTicker != nil,
-//@           nevents("stop.ticker") == old(nevents("stop.ticker"))+1 && eventref[*time.Ticker]("stop.ticker", nevents("stop.ticker")-1) == g.resendTicker)
+//@           exists(old(nevents("stop.ticker")), nevents("stop.ticker"), func(i int) bool { return eventref[*time.Ticker]("stop.ticker", i) == g.resendTicker }))
 
 // ---- chunking (C14) -------------------------------------------------------------
 
@@ -785,29 +826,30 @@ func chunkEnd(data []byte, first, n int) int {
 
 //@ func (g *GoBackNConn) Send(data []byte) (err error)
 //@   props C14 C12 C18
+//@   modifies chanlog[*PacketData](), chanlog[struct{}](), chanlog[time.Time](), events("*")
 //@   acquires TimeoutManager.mu
 //@   requires g != nil && g.cfg != nil && tminv(g.timeoutManager) && g.cfg.maxChunkSize >= 0
 //@   loop 0 invariant sentBytes >= 0 && sentBytes <= len(data) && maxChunk == g.cfg.maxChunkSize && maxChunk > 0 && len(data) > 0
-//@   loop 0 invariant nsent() >= old(nsent()) && chunkEnd(data, old(nsent()), nsent()) == sentBytes
-//@   loop 0 invariant implies(nsent() > old(nsent()), isnil(timeout))
-//@   loop 0 invariant forall(old(nsent()), nsent(), func(i int) bool { return chunkSent(g, i) })
-//@   loop 0 invariant forall(old(nsent()), nsent(), func(i int) bool { return chunkSize(data, i, maxChunk) })
-//@   loop 0 invariant forall(old(nsent()), nsent(), func(i int) bool { return chunkChain(data, old(nsent()), i) })
-//@   loop 0 invariant forall(old(nsent()), nsent(), func(i int) bool {
-//@          return sentval[*PacketData](i).FinalChunk == (i == nsent()-1 && sentBytes == len(data)) })
-//@   ensures @C14 implies(err == nil, nsent() >= old(nsent())+1 && sentval[*PacketData](nsent()-1).FinalChunk &&
-//@           chunkEnd(data, old(nsent()), nsent()) == len(data))
-//@   ensures @C14 implies(err == nil && g.cfg.maxChunkSize > 0 && len(data) > 0, forall(old(nsent()), nsent(), func(i int) bool {
+//@   loop 0 invariant nsent[*PacketData]() >= old(nsent[*PacketData]()) && chunkEnd(data, old(nsent[*PacketData]()), nsent[*PacketData]()) == sentBytes
+//@   loop 0 invariant implies(nsent[*PacketData]() > old(nsent[*PacketData]()), isnil(timeout))
+//@   loop 0 invariant forall(old(nsent[*PacketData]()), nsent[*PacketData](), func(i int) bool { return chunkSent(g, i) })
+//@   loop 0 invariant forall(old(nsent[*PacketData]()), nsent[*PacketData](), func(i int) bool { return chunkSize(data, i, maxChunk) })
+//@   loop 0 invariant forall(old(nsent[*PacketData]()), nsent[*PacketData](), func(i int) bool { return chunkChain(data, old(nsent[*PacketData]()), i) })
+//@   loop 0 invariant forall(old(nsent[*PacketData]()), nsent[*PacketData](), func(i int) bool {
+//@          return sentval[*PacketData](i).FinalChunk == (i == nsent[*PacketData]()-1 && sentBytes == len(data)) })
+//@   ensures @C14 implies(err == nil, nsent[*PacketData]() >= old(nsent[*PacketData]())+1 && sentval[*PacketData](nsent[*PacketData]()-1).FinalChunk &&
+//@           chunkEnd(data, old(nsent[*PacketData]()), nsent[*PacketData]()) == len(data))
+//@   ensures @C14 implies(err == nil && g.cfg.maxChunkSize > 0 && len(data) > 0, forall(old(nsent[*PacketData]()), nsent[*PacketData](), func(i int) bool {
 //@           return chunkSent(g, i) && chunkSize(data, i, g.cfg.maxChunkSize) }))
-//@   ensures @C14 implies(err == nil && g.cfg.maxChunkSize > 0 && len(data) > 0, forall(old(nsent()), nsent(), func(i int) bool {
-//@           return chunkChain(data, old(nsent()), i) && (sentval[*PacketData](i).FinalChunk == (i == nsent()-1)) }))
-//@   ensures @C14 implies(err == nil && (g.cfg.maxChunkSize == 0 || len(data) == 0), nsent() == old(nsent())+1 &&
-//@           senton(nsent()-1, g.sendDataChan) && !sentval[*PacketData](nsent()-1).IsPing &&
-//@           within(sentval[*PacketData](nsent()-1).Payload, data) && offsetin(sentval[*PacketData](nsent()-1).Payload, data) == 0 &&
-//@           len(sentval[*PacketData](nsent()-1).Payload) == len(data))
-//@   ensures @C14 implies(err != nil, forall(old(nsent()), nsent(), func(i int) bool { return !sentval[*PacketData](i).FinalChunk }))
-//@   ensures @C14 implies(err != nil && !closed(g.quit), nsent() == old(nsent()))
-//@   ensures @C12 implies(old(closed(g.quit)), err != nil && nsent() == old(nsent()))
+//@   ensures @C14 implies(err == nil && g.cfg.maxChunkSize > 0 && len(data) > 0, forall(old(nsent[*PacketData]()), nsent[*PacketData](), func(i int) bool {
+//@           return chunkChain(data, old(nsent[*PacketData]()), i) && (sentval[*PacketData](i).FinalChunk == (i == nsent[*PacketData]()-1)) }))
+//@   ensures @C14 implies(err == nil && (g.cfg.maxChunkSize == 0 || len(data) == 0), nsent[*PacketData]() == old(nsent[*PacketData]())+1 &&
+//@           senton(nsent[*PacketData]()-1, g.sendDataChan) && !sentval[*PacketData](nsent[*PacketData]()-1).IsPing &&
+//@           within(sentval[*PacketData](nsent[*PacketData]()-1).Payload, data) && offsetin(sentval[*PacketData](nsent[*PacketData]()-1).Payload, data) == 0 &&
+//@           len(sentval[*PacketData](nsent[*PacketData]()-1).Payload) == len(data))
+//@   ensures @C14 implies(err != nil, forall(old(nsent[*PacketData]()), nsent[*PacketData](), func(i int) bool { return !sentval[*PacketData](i).FinalChunk }))
+//@   ensures @C14 implies(err != nil && !closed(g.quit), nsent[*PacketData]() == old(nsent[*PacketData]()))
+//@   ensures @C12 implies(old(closed(g.quit)), err != nil && nsent[*PacketData]() == old(nsent[*PacketData]()))
 
 // extends(b, a): a is a prefix of b.
 func extends(b, a []byte) bool {
@@ -842,19 +884,20 @@ func appended(b, a, p []byte) bool {
 
 //@ func (g *GoBackNConn) Recv() (b []byte, err error)
 //@   props C14 C12 C18
+//@   modifies chanlog[*PacketData](), chanlog[struct{}](), chanlog[time.Time](), events("*")
 //@   acquires TimeoutManager.mu
 //@   requires g != nil && g.cfg != nil && tminv(g.timeoutManager)
 //@   modifies g.recvBuf
-//@   loop 0 invariant nrecv() >= old(nrecv())
-//@   loop 0 invariant forall(old(nrecv()), nrecv(), func(i int) bool { return recvon(i, g.recvDataChan) && !recvval[*PacketData](i).FinalChunk })
+//@   loop 0 invariant nrecv[*PacketData]() >= old(nrecv[*PacketData]())
+//@   loop 0 invariant forall(old(nrecv[*PacketData]()), nrecv[*PacketData](), func(i int) bool { return recvon(i, g.recvDataChan) && !recvval[*PacketData](i).FinalChunk })
 //@   loop 0 invariant @C14 extends(g.recvBuf, old(g.recvBuf))
-//@   loop 0 step @C14 nrecv() == old(nrecv())+1 && recvon(nrecv()-1, g.recvDataChan) &&
-//@          appended(g.recvBuf, old(g.recvBuf), recvval[*PacketData](nrecv()-1).Payload)
-//@   loop 0 exitstep @C14 nrecv() == old(nrecv())+1 && recvon(nrecv()-1, g.recvDataChan) && recvval[*PacketData](nrecv()-1).FinalChunk &&
-//@          appended(g.recvBuf, old(g.recvBuf), recvval[*PacketData](nrecv()-1).Payload)
-//@   ensures @C14 implies(err == nil, nrecv() >= old(nrecv())+1 && recvon(nrecv()-1, g.recvDataChan) &&
-//@           recvval[*PacketData](nrecv()-1).FinalChunk && len(g.recvBuf) == 0 && extends(b, old(g.recvBuf)))
-//@   ensures @C14 implies(err == nil, forall(old(nrecv()), nrecv()-1, func(i int) bool { return recvon(i, g.recvDataChan) && !recvval[*PacketData](i).FinalChunk }))
+//@   loop 0 step @C14 nrecv[*PacketData]() == old(nrecv[*PacketData]())+1 && recvon(nrecv[*PacketData]()-1, g.recvDataChan) &&
+//@          appended(g.recvBuf, old(g.recvBuf), recvval[*PacketData](nrecv[*PacketData]()-1).Payload)
+//@   loop 0 exitstep @C14 nrecv[*PacketData]() == old(nrecv[*PacketData]())+1 && recvon(nrecv[*PacketData]()-1, g.recvDataChan) && recvval[*PacketData](nrecv[*PacketData]()-1).FinalChunk &&
+//@          appended(g.recvBuf, old(g.recvBuf), recvval[*PacketData](nrecv[*PacketData]()-1).Payload)
+//@   ensures @C14 implies(err == nil, nrecv[*PacketData]() >= old(nrecv[*PacketData]())+1 && recvon(nrecv[*PacketData]()-1, g.recvDataChan) &&
+//@           recvval[*PacketData](nrecv[*PacketData]()-1).FinalChunk && len(g.recvBuf) == 0 && extends(b, old(g.recvBuf)))
+//@   ensures @C14 implies(err == nil, forall(old(nrecv[*PacketData]()), nrecv[*PacketData]()-1, func(i int) bool { return recvon(i, g.recvDataChan) && !recvval[*PacketData](i).FinalChunk }))
 //@   ensures @C14 implies(err != nil, isnil(b))
 //@   ensures @C14 implies(err != nil, extends(g.recvBuf, old(g.recvBuf)))
 //@   ensures @C12 implies(old(closed(g.quit)), err != nil && nrecvon(g.recvDataChan) == old(nrecvon(g.recvDataChan)))
